@@ -48,7 +48,7 @@ UNITS2 = {
     # fibre.c: the comparator the scheduler hands to list_insert_sorted for its timer queue (fibre_t in memory)
     'FibreSeq': (os.path.join(vlib.VERIF, 'harness/wrap_fibre.c'), ['duetime_cmp', 'get_next_wakeup'], 1,
                  {'inmem': ['fibre', 'fibre_t', 'list_node', 'list_node_t', 'list_t', 'messageq_t'], 'flags': ['-I' + vlib.REPO],
-                  'externs': ['messageq_empty']}),
+                  'externs': ['messageq_empty'], 'optional': ['get_next_wakeup']}),     # only C03 states theorems about get_next_wakeup
     # one iteration of the POSIX main loop; the clock, the scheduling pass and the sleep are the environment
     'MainLoopSeq': (os.path.join(vlib.VERIF, 'harness/wrap_mainloop.c'), ['fibre_scheduler_main_loop'], 1,
                     {'externs': ['time_now', 'fibre_scheduler_next', 'usleep'], 'flags': ['-I' + vlib.REPO]}),
@@ -107,7 +107,7 @@ def signature_changes(unit, only=None):
     out = []
     opt = UNITS2[unit][3].get('optional', ()) if unit in UNITS2 and len(UNITS2[unit]) > 3 else ()
     for k in sorted(set(exp) | set(cur)):
-        if any(k.split(' ', 1)[1] == o or k.split(' ', 1)[1].startswith(o + '.') for o in opt):
+        if only is None and any(k.split(' ', 1)[1] == o or k.split(' ', 1)[1].startswith(o + '.') for o in opt):
             continue
         if only is not None and not any(k.split(' ', 1)[1] == o or k.split(' ', 1)[1].startswith(o + '.') for o in only):
             continue
